@@ -8,14 +8,15 @@
 
 #include <string.h>
 #include <stdlib.h>
+#include <limits.h>
 
-enum { H_PUSH = 1, H_POP, H_GET, H_CLEAR, H_SWAP, H_HUGE, H_CHURN };
+enum { H_PUSH = 1, H_POP, H_GET, H_CLEAR, H_SWAP, H_HUGE, H_CHURN, H_GIANT };
 
 static const char *h_opname(int k)
 {
     switch (k) {
     case H_PUSH: return "push"; case H_POP: return "pop"; case H_GET: return "get";
-    case H_CLEAR: return "clear"; case H_SWAP: return "swap"; case H_HUGE: return "huge"; case H_CHURN: return "churn";
+    case H_CLEAR: return "clear"; case H_SWAP: return "swap"; case H_HUGE: return "huge"; case H_CHURN: return "churn"; case H_GIANT: return "giant";
     }
     return "?";
 }
@@ -191,6 +192,56 @@ static uint64_t huge_walk(const struct cstl_bintree_node *n, const struct cstl_b
     return 1 + huge_walk(n->l, n, pos * 2, size, depth + 1, pool, np) + huge_walk(n->r, n, pos * 2 + 1, size, depth + 1, pool, np);
 }
 
+/* giant heaps (thorough tier): 2^24 ... 2^26 compact elements. Whatever depends only on the COUNT (slot navigation from the bits
+ * of the size) first goes wrong at some 2^k - 1, 2^k or 2^k + 1; around each of them up to the top size the maximum is popped,
+ * checked, and pushed back (it sifts up to the root again). */
+struct gh_elem { struct cstl_heap_node hn; int prio, id; };
+static int gh_cmp(const void *a, const void *b, void *p) { (void)p; return (((const struct gh_elem *)a)->prio > ((const struct gh_elem *)b)->prio) - (((const struct gh_elem *)a)->prio < ((const struct gh_elem *)b)->prio); }
+static size_t gh_cleared;
+static void gh_clr(void *e, void *p) { (void)e; (void)p; gh_cleared++; }
+static void giant_heap(uint64_t sel)
+{
+    static const unsigned tops[] = { 25, 26, 24 };
+    unsigned top = tops[sel % 3]; size_t N = ((size_t)1 << top) + 2, i; int asc = (int)(sel / 3 % 2);
+    struct gh_elem *pool = malloc(N * sizeof *pool);
+    static struct cstl_heap gh; static void *ret; static const void *gret;
+    if (!pool) sim_harness_bug("heap: no memory for a giant heap");
+    sim_watchdog(1500);
+    g_cur_prop = "C07"; g_cur_ctx = "giant-heap";
+    memset(&gh, 0x5b, sizeof gh);
+    cstl_heap_init(&gh, gh_cmp, NULL, offsetof(struct gh_elem, hn));
+    for (i = 0; i < N; i++) {
+        size_t n = i + 1, k;
+        /* descending priorities (no sift-up: the first element stays the maximum) or, for the smallest top size, ascending ones */
+        pool[i].prio = asc && top == 24 ? (int)i : (int)(N - i); pool[i].id = (int)i;
+        g_inlib = 1; cstl_heap_push(&gh, &pool[i]); g_inlib = 0;
+        for (k = 20; k <= top; k++) if (n + 1 >= ((size_t)1 << k) && n <= ((size_t)1 << k) + 1) break;
+        if (k <= top) {
+            /* n is 2^k - 1, 2^k or 2^k + 1 */
+            int mx = asc && top == 24 ? (int)i : (int)N;
+            TRY(gret = cstl_heap_get(&gh));
+            if (gret == NULL || ((const struct gh_elem *)gret)->prio != mx) VIOL(0, "get_max", "giant heap of %zu elements: get does not return the maximum", n);
+            TRY(ret = cstl_heap_pop(&gh));
+            if (g_aborted) VIOL(0, g_aborted == 2 ? "assert" : "abort", "giant heap of %zu elements: pop aborted", n);
+            if (ret == NULL || ((struct gh_elem *)ret)->prio != mx) VIOL(0, "pop_max", "giant heap of %zu elements: pop does not return the maximum", n);
+            if (cstl_heap_size(&gh) != n - 1) VIOL(0, "size", "giant heap: size %zu after popping from %zu", cstl_heap_size(&gh), n);
+            TRY(cstl_heap_push(&gh, ret));
+            if (g_aborted) VIOL(0, g_aborted == 2 ? "assert" : "abort", "giant heap of %zu elements: push aborted", n - 1);
+            if (cstl_heap_size(&gh) != n) VIOL(0, "size", "giant heap: size %zu after pushing onto %zu", cstl_heap_size(&gh), n - 1);
+        }
+    }
+    /* a few dozen pops at the top size: non-increasing */
+    { int prev = INT_MAX; for (i = 0; i < 40; i++) { TRY(ret = cstl_heap_pop(&gh)); if (ret == NULL || ((struct gh_elem *)ret)->prio > prev) VIOL(0, "pop_max", "giant heap: pop %zu at the top size is out of order", i); prev = ((struct gh_elem *)ret)->prio; } }
+    g_cur_prop = "C15"; gh_cleared = 0;
+    TRY(cstl_heap_clear(&gh, gh_clr));
+    if (gh_cleared != N - 40) VIOL(0, "clear_count", "clear of a giant heap of %zu elements called back %zu times", N - 40, gh_cleared);
+    free(pool);
+    PROBE("giant_heap_2^24"); if (top >= 25) PROBE("giant_heap_2^25"); if (top >= 26) PROBE("giant_heap_2^26");
+    EVT("giant_heap", top, asc, 0);
+    if (N > maxreach) maxreach = (unsigned)N;
+    g_run.nontrivial = 1;
+}
+
 static void huge_heap(uint64_t nsel, uint64_t seed)
 {
     static const size_t bases[] = { 255, 256, 257, 4095, 4097, 65535, 65536, 65537, 70000, 131073, 262147, 393300, 524290,
@@ -320,6 +371,7 @@ static void h_exec(const plan_t *p)
         static struct helem *e; static void *ret;
         g_run.step = k; g_run.opkind = o->kind; g_run.steps++;
         g_cur_prop = prop_of(h); g_cur_ctx = ctx_of(h);
+        if (o->kind == H_GIANT) { giant_heap(o->a[1]); continue; }
         if (o->kind == H_HUGE) {
             g_cur_prop = "C07";
             huge_heap(o->a[1], o->a[2]);
@@ -475,6 +527,12 @@ static void h_gen(prng_t *r, int mode, plan_t *p)
     int nops = longrun ? 600 + (int)prng_below(r, 1800) : small ? 2 + (int)prng_below(r, 8) : 10 + (int)prng_below(r, 70);
     unsigned w_clear = mode == 15 ? 10 : 1;
     unsigned push_w;
+    if (mode == 109) {
+        op_t *o = plan_add(p, H_GIANT);
+        p->cfg[CF_NH] = 1; p->cfg[CF_PRIOS] = 1; p->cfg[CF_JUNK] = 1; p->cfg[CF_MAXN] = 4;
+        o->a[1] = g_gen_index;
+        return;
+    }
     if (mode == 107 || mode == 108) {
         op_t *o = plan_add(p, H_HUGE);
         p->cfg[CF_NH] = 1; p->cfg[CF_PRIOS] = 1; p->cfg[CF_JUNK] = 1 + prng_below(r, 254); p->cfg[CF_MAXN] = 4;
